@@ -5,7 +5,7 @@
    i_init / i_step / i_run, the very functions the correspondence check executes. *)
 From GM Require Import Base.Prelude Base.Outcome Codec.Packets Codec.Settings Codec.Prim Codec.Steps Codec.ImplEncode
   Codec.ImplDecode Codec.Framing Alias.Outbound Alias.Inbound Validate.Topic Validate.Rules Engine.Model Engine.Instance
-  CodecProofs.FramingP CodecProofs.DecNoPanic EngineProofs.WFDefs EngineProofs.WFStep EngineProofs.WFProps.
+  CodecProofs.FramingP CodecProofs.DecNoPanic EngineProofs.WFDefs EngineProofs.WFStep EngineProofs.WFTrack EngineProofs.WFProps.
 Open Scope N_scope.
 
 (* ---- never-panics, compositionally ---- *)
@@ -275,3 +275,32 @@ Section Instance.
       exists o, lookup i (s_ops (fst (i_run cfg (i_init cfg k) h))) = Some o /\ op_pid o' = op_pid o.
   Proof. exact (retransmission_same_id _ _ _ enc_done _ _ _ _ _ _ _ _ _ _ _ cfg instance_comps_ok Hcfg o0 i0 h now I I Hh). Qed.
 End Instance.
+
+(* ---- no operation is silently dropped, for the concrete engine ---- *)
+(* the clients' submission-time validator (validate_packet_outbound) guarantees ok_submit *)
+Lemma validate_outbound_sub_ok p : validate_outbound p = Ok tt -> sub_ok p.
+Proof.
+  destruct p; cbn; try exact (fun _ => I). unfold validate_publish_packet_outbound.
+  destruct (negb (pub_pid p =? 0)); [discriminate|]. destruct (pub_dup p); [discriminate|reflexivity].
+Qed.
+
+Definition valid_submission (e : event) : Prop :=
+  match e with EvUser _ p _ => validate_outbound p = Ok tt | _ => True end.
+
+Lemma valid_submission_ok h : Forall valid_submission h -> Forall ok_submit h.
+Proof.
+  induction 1 as [|e r He Hr IH]; constructor; [|exact IH].
+  destruct e; cbn in *; try exact I. apply validate_outbound_sub_ok. exact He.
+Qed.
+
+Theorem instance_no_silent_drop (cfg : config) (k : resolver_kind) (h : list event) :
+  ok_cfg cfg -> Forall ok_event h -> Forall valid_submission h ->
+  forall id op, lookup id (s_ops (fst (i_run cfg (i_init cfg k) h))) = Some op ->
+    In id (s_uq (fst (i_run cfg (i_init cfg k) h))) \/ In id (s_rq (fst (i_run cfg (i_init cfg k) h))) \/
+    In id (s_hq (fst (i_run cfg (i_init cfg k) h))) \/ s_cur (fst (i_run cfg (i_init cfg k) h)) = Some id \/
+    In id (s_pwco (fst (i_run cfg (i_init cfg k) h))) \/
+    In id (map snd (s_ppub (fst (i_run cfg (i_init cfg k) h)))) \/ In id (map snd (s_pnon (fst (i_run cfg (i_init cfg k) h)))).
+Proof.
+  intros Hcfg Hall Hval.
+  exact (no_silent_drop _ _ _ enc_done _ _ _ _ _ _ _ _ _ _ _ cfg instance_comps_ok Hcfg _ _ h I I Hall (valid_submission_ok h Hval)).
+Qed.
